@@ -180,7 +180,7 @@ def build(job):
             ready = [m["id"] for m in st.view.queue if m["elig"] == "ready"]
             return a[1] == min(ready)
     return Explorer(w, workload, [mon], job.get("budget"), max_states=job.get("max_states", 200000),
-                    time_cap=job.get("time_cap", 1200), actions_filter=flt)
+                    time_cap=job.get("time_cap", 600), actions_filter=flt)
 
 
 def run_job(job):
